@@ -134,8 +134,11 @@ def parse_assumptions(out, theorems):
 
 def load_known(pid):
     known, fixed = {}, []
-    p = os.path.join(VERIF, "known_findings.txt")
-    if os.path.exists(p):
+    import glob
+    paths = [os.path.join(VERIF, "known_findings.txt")] + sorted(glob.glob(os.path.join(VERIF, "findings", "*.txt")))
+    for p in paths:
+        if not os.path.exists(p):
+            continue
         for line in open(p):
             line = line.strip()
             m = re.match(r"finding:\s+property=(\S+)\s+key=(\S+)\s+(.*)", line)
